@@ -231,7 +231,7 @@ def search(acc: Acc, tier, shard, nshards):
     def body(data):
         ch = model.Ch(data.draw)
         counter["i"] += 1
-        doc = model.Gen(ch, prof).document()
+        doc = model.any_document(model.Gen(ch, prof))
         surf = render.Surface(ch) if not ch.chance(1, 6) else None
         r = render.render(doc, surf)
         case = {"doc": doc, "text": r.text}
